@@ -328,7 +328,7 @@ pub fn run(opts: &Opts) -> i32 {
                 }
             }
             Run::Panic(p) => rep.violation(Violation { signature: format!("{}: {}", role.name(), p.signature()), what: format!("panic: {} at {}", p.msg, p.location), replay: json!({"seed": opts.seed, "stream": "C06-walk", "index": i}) }),
-            Run::Livelock => rep.violation(Violation { signature: format!("{}: live-lock", role.name()), what: "step budget exhausted".into(), replay: json!({"index": i}) }),
+            Run::Livelock(_tail) => rep.violation(Violation { signature: format!("{}: live-lock", role.name()), what: "step budget exhausted".into(), replay: json!({"index": i}) }),
             Run::Watchdog => rep.inconclusive("watchdog"),
         }
         r.after()
@@ -389,7 +389,7 @@ pub fn run(opts: &Opts) -> i32 {
                 what: format!("panic on wrong acknowledgement: {} at {}", p.msg, p.location),
                 replay: json!({"matrix_case": descr}),
             }),
-            Run::Livelock => rep.violation(Violation { signature: format!("{}: live-lock", role.name()), what: "step budget exhausted".into(), replay: json!({"matrix_case": descr}) }),
+            Run::Livelock(_tail) => rep.violation(Violation { signature: format!("{}: live-lock", role.name()), what: "step budget exhausted".into(), replay: json!({"matrix_case": descr}) }),
             Run::Watchdog => rep.inconclusive("watchdog"),
         }
         r.after()
@@ -409,7 +409,7 @@ pub fn run(opts: &Opts) -> i32 {
                 }
             }
             Run::Panic(p) => rep.violation(Violation { signature: format!("{}: {}", role.name(), p.signature()), what: format!("panic in long history: {} at {}", p.msg, p.location), replay: json!({"wrap": role.name()}) }),
-            Run::Livelock => rep.violation(Violation { signature: format!("{}: live-lock", role.name()), what: "step budget exhausted in long history".into(), replay: json!({"wrap": role.name()}) }),
+            Run::Livelock(_tail) => rep.violation(Violation { signature: format!("{}: live-lock", role.name()), what: "step budget exhausted in long history".into(), replay: json!({"wrap": role.name()}) }),
             Run::Watchdog => rep.inconclusive("watchdog in long history"),
         }
         r.after()
